@@ -17,6 +17,7 @@ import traceback
 
 sys.path.insert(0, os.path.dirname(os.path.abspath(__file__)))
 from vlib import run as R            # noqa: E402
+from vlib import gen as G            # noqa: E402
 
 
 def load_prop(pid: str):
@@ -61,7 +62,15 @@ def run_check(pid: str, tier: str, seed: int, only_defs=None, replay_mode=False)
     proof_broken = not coq["ok"]
 
     # ---- 2. corpus
-    corpus = mod.build_corpus(tier, rng)
+    probe_broken = None
+    try:
+        corpus = mod.build_corpus(tier, rng)
+    except G.ProbeUnavailable as e:
+        # corpus construction wanted the probe (names of non-ASCII identifiers, literals of the real code): build it again without
+        probe_broken = str(e)
+        G.NO_PROBE = True
+        rng = random.Random(seed * 1000003 + sum(map(ord, pid)))
+        corpus = mod.build_corpus(tier, rng)
     if getattr(mod, "HOSTILE_OK", None):
         # look-alikes of prelude names the UNCHANGED generator is immune to for this check's derives (established by experiment,
         # DESIGN.md 9.5): guards against a generated path that stops being absolute
@@ -115,7 +124,9 @@ def run_check(pid: str, tier: str, seed: int, only_defs=None, replay_mode=False)
             break
         binp, err = R.build_genprobe()
         if binp is None:
-            fatal = "genprobe (the generator sources of /repo compiled as a library) does not build: " + err
+            # the generator sources no longer fit the probe (an internal signature changed, say): the behavioural correspondence below does
+            # not need the probe; what the probe alone decides is then undecided (see the end of this function)
+            probe_broken = "genprobe (the generator sources of /repo compiled as a library) does not build: " + (err or "")[-1500:]
             break
         lines = []
         for (n, k, kind, args, note) in corpus.queries:
@@ -139,6 +150,7 @@ def run_check(pid: str, tier: str, seed: int, only_defs=None, replay_mode=False)
     checked_traces = 0
     blamed = set()
     unevaluated_after_stall = 0
+    unevaluated_probe_queries = 0
     if not fatal:
         expected_fail = getattr(mod, "expected_build_failure", None)
         for (cfgname, k), msg in sorted(build_failures.items()):
@@ -150,6 +162,10 @@ def run_check(pid: str, tier: str, seed: int, only_defs=None, replay_mode=False)
                                "observed": msg[:3000],
                                "expected": "the derive(s) compile on this in-domain definition",
                                "family": corpus.meta[k].get("family")})
+        if probe_broken:
+            for cfg in probe_cfgs:
+                if not any(c_[0] is cfg for c_ in crates):
+                    unevaluated_probe_queries += sum(1 for q in corpus.queries if mod.probe_command(corpus, q[0], q[1], q[2], q[3]) is not None)
         for cfg, cc in crates:
             cfgname = cfg["name"]
             flt = cfg.get("filter")
@@ -234,6 +250,14 @@ def run_check(pid: str, tier: str, seed: int, only_defs=None, replay_mode=False)
                                                               str(v.get("expected"))[:160], v.get("detail") or ""))
         reported += 1
         rc = 1
+    if probe_broken:
+        notes.append(probe_broken[:600])
+        if getattr(mod, "PROBE_REQUIRED", False) and rc == 0:
+            # this check decides part of its property on the generator itself (through the probe): that part is no longer shown to hold
+            path = R.write_replay(pid, {"property": pid, "kind": "correspondence-broken", "what": probe_broken,
+                                        "step": "harness/genprobe built against /repo's working tree"})
+            print("VIOLATION property=%s replay=%s no-failing-input-found" % (pid, path))
+            rc = 1
     if fatal and rc == 0:
         path = R.write_replay(pid, {"property": pid, "kind": "build-broken", "what": fatal,
                                     "step": "cargo build of the corpus crate against /repo's working tree"})
@@ -267,6 +291,8 @@ def run_check(pid: str, tier: str, seed: int, only_defs=None, replay_mode=False)
         cov.update(extra_info)
         if unevaluated_after_stall:
             cov["unevaluated_after_a_non_terminating_observer"] = unevaluated_after_stall
+        if probe_broken:
+            cov["generator_probe"] = {"status": "unavailable", "why": probe_broken[:400], "queries_not_evaluated": unevaluated_probe_queries}
         if hasattr(mod, "extra_coverage"):
             cov.update(mod.extra_coverage(corpus, tier))
         R.write_evidence(pid, tier, seed, cov, list(getattr(mod, "ASSUMPTIONS", [])), reported)
